@@ -122,6 +122,7 @@ func init() {
 			ruleNullCodecs(c)
 			ruleNullValue(c)
 			ruleCommaOk(c, internFuncs)
+			ruleInternSibling(c)
 		},
 	})
 }
